@@ -528,6 +528,45 @@ def rule_fixed_rect(chk, prog):
         (r.bad if bad else r.ok)("cluster on rectangle 2 (30 x 18), boundary variables 7 / 8", fn.where(), bad or "")
 
 
+def rule_shared_node_twins(chk, prog):
+    from ..sibling.mirror import mirror_blocks_equal
+    r = chk.rule("SHARED-NODE-TWINS", "RootCluster::calculateClusterPathsToEachNode, node shared by two sibling clusters J and K: BOTH clusters get the "
+                 "`the other cluster stands in for the shared node` entry -- the two statements are mirror images under J <-> K and neither is "
+                 "conditional on the other (an `else` makes the exclusive nodes of the first cluster lose every non-overlap pair against the "
+                 "second); RectangularCluster::clusterIsFromFixedRectangle is true for every rectangle index >= 0, index 0 included", floor=2)
+    fn = prog.fn("cola::RootCluster::calculateClusterPathsToEachNode")
+    ifs = {}
+    for n in fn.nodes():
+        if n.get("k") == "IfStmt" and norm(n["cond"]) in ("lcaChildJCluster", "lcaChildKCluster") and any(
+                "m_overlap_replacement_map" in norm(x) for x in walk(n.get("then") or {}) if x.get("k") in ("CXXOperatorCallExpr", "BinaryOperator")):
+            ifs[norm(n["cond"])] = n
+    r.count()
+    bad = None
+    if set(ifs) != {"lcaChildJCluster", "lcaChildKCluster"}:
+        raise AnalysisBroken("calculateClusterPathsToEachNode: the two replacement blocks were not found")
+    for nm, n in ifs.items():
+        other = "lcaChildKCluster" if nm.endswith("JCluster") else "lcaChildJCluster"
+        ats = atoms(path_condition(fn, n["then"], inline=False))
+        if other in ats:
+            bad = bad or "the replacement entry for %s is made only when %s is null" % (nm[8], other)
+    ok, where = mirror_blocks_equal(ifs["lcaChildJCluster"]["then"], ifs["lcaChildKCluster"]["then"], "j/k")
+    if not ok:
+        bad = bad or "the two replacement blocks are not mirror images under J <-> K: ...%s... vs ...%s..." % (where[0][-60:], where[1][-60:])
+    (r.bad if bad else r.ok)("replacement entries for both clusters", fn.loc(ifs["lcaChildKCluster"]), bad or "")
+    fx = prog.fn("cola::RectangularCluster::clusterIsFromFixedRectangle")
+    r.count()
+    res = {}
+    for idx in (-1, 0, 3):
+        it = Interp(prog, Oracle([]))
+        try:
+            res[idx] = bool(it.call(fx, Obj("cola::RectangularCluster", {"m_rectangle_index": idx}), None, None, arg_values=[]))
+        except Unsupported as e:
+            raise AnalysisBroken("clusterIsFromFixedRectangle outside the interpreter subset: %s" % e)
+    want = {-1: False, 0: True, 3: True}
+    (r.ok if res == want else r.bad)("clusterIsFromFixedRectangle", fx.where(), "" if res == want else
+                                     "answers %s for rectangle indices -1 / 0 / 3, expected %s: a cluster built on rectangle 0 is registered as an ordinary cluster" % (res, want))
+
+
 def run(chk):
     prog = chk.load()
     chk.guard(rule_pairs, chk, prog)
@@ -537,3 +576,4 @@ def run(chk):
     chk.guard(rule_wiring, chk, prog)
     chk.guard(rule_cluster_geometry, chk, prog)
     chk.guard(rule_fixed_rect, chk, prog)
+    chk.guard(rule_shared_node_twins, chk, prog)
